@@ -1,6 +1,12 @@
-(* pyais/filter.py, statement by statement (the code AFTER the C19 repair: the two geographic filters test
+(* pyais/filter.py, statement by statement (the code AFTER the C19 repairs: the two geographic filters test
    `getattr(msg, 'lat', None) is not None and getattr(msg, 'lon', None) is not None` where the unchanged code
-   tested `hasattr(msg, 'lat')`; the unchanged bodies are kept below as [*_unrepaired] for the record).
+   tested `hasattr(msg, 'lat')`; NoneFilter reads the listed attributes through `_attr_or_none`, which turns the
+   TypeError / ValueError of a computed attribute that cannot be computed for the message into None, where the
+   unchanged code called `getattr(msg, attr, None)` directly; the unchanged bodies are kept below as
+   [*_unrepaired] for the record).
+
+   Reading an attribute is an effect (Prim/PyObj.v): the getter of a computed attribute may raise.  Every read in
+   this file is therefore in the exception monad, in Python's evaluation order, with `and` / all() short-circuits.
 
    Generators are modelled by their observable behaviour: the finite sequence of yielded messages followed by
    either normal exhaustion or the exception that killed the generator ([mgen]).  Laziness of nested generators
@@ -88,18 +94,28 @@ Section WithDistance.
   (* AttributeFilter.filter_data:   yield from filter(self.ff, data) *)
   Definition attribute_body (ff : pymsg -> M bool) (m : pymsg) : M bool := ff m.
 
-  (* NoneFilter.filter_data:
+  (* def _attr_or_none(msg, attr):
+         try:
+             return getattr(msg, attr, None)
+         except (TypeError, ValueError):
+             return None
+     getattr with a default absorbs AttributeError only; the handler absorbs TypeError and ValueError (and their
+     subclasses); any other exception of a getter propagates. *)
+  Definition attr_or_none (m : pymsg) (attr : string) : M aval :=
+    try_except (py_getattr_d m attr ANone) [HPy TypeError; HPy ValueError] (fun _ => Ok ANone).
+
+  (* NoneFilter.filter_data (repaired):
        for msg in data:
-           if all(getattr(msg, attr, None) is not None for attr in self.attrs):
+           if all(_attr_or_none(msg, attr) is not None for attr in self.attrs):
                yield msg
      all() pulls the generator expression left to right and stops at the first falsy element: an attribute after
-     the first None one is not read (so a getter that would raise there is not reached); getattr with a default
-     absorbs AttributeError only, any other exception of a getter propagates out of all() and kills the generator. *)
+     the first None one is not read (so a getter that would raise there is not reached); an exception that
+     _attr_or_none lets through propagates out of all() and kills the generator. *)
   Fixpoint none_all (m : pymsg) (attrs : list string) : M bool :=
     match attrs with
     | [] => Ok true
     | attr :: rest =>
-      v <- py_getattr_d m attr ANone ;;
+      v <- attr_or_none m attr ;;
       if py_is_not_none v then none_all m rest else Ok false
     end.
   Definition none_body (attrs : list string) (m : pymsg) : M bool := none_all m attrs.
@@ -151,8 +167,18 @@ Section WithDistance.
       if negb g then Ok false else Ok true
     else Ok true.
 
-  (* the bodies of the unchanged code (before the fix: commit), for the record and for [C19_unrepaired_raises]:
-       if hasattr(msg, 'lat'):
+  (* the bodies of the unchanged code (before the fix: commits), for the record and for [C19_unrepaired_raises] /
+     [C19_nonefilter_unrepaired_raises]:
+       if all(getattr(msg, attr, None) is not None for attr in self.attrs):      -- NoneFilter: absorbs AttributeError only *)
+  Fixpoint none_all_unrepaired (m : pymsg) (attrs : list string) : M bool :=
+    match attrs with
+    | [] => Ok true
+    | attr :: rest =>
+      v <- py_getattr_d m attr ANone ;;
+      if py_is_not_none v then none_all_unrepaired m rest else Ok false
+    end.
+  Definition none_body_unrepaired (attrs : list string) (m : pymsg) : M bool := none_all_unrepaired m attrs.
+  (*   if hasattr(msg, 'lat'):                                                    -- DistanceFilter / GridFilter
            if haversine(self.ref_lat_lon, (msg.lat, msg.lon)) >= self.distance_km: continue *)
   Definition distance_body_unrepaired (ref_lat_lon : lat_lon) (distance_km : ratio) (m : pymsg) : M bool :=
     c <- py_hasattr m "lat" ;;
@@ -246,6 +272,23 @@ Section WithDistance.
     c <- filter_chain_init filters ;;
     Ok (filter_chain_filter c decode stream).
 End WithDistance.
+
+(* ---- a recorded witness --------------------------------------------------------------------------------- *)
+(* The type 18 report with payload bits 010010 followed by 100 zeros (cut before the radio field), as pyais decodes
+   it and as the harness describes it to this model: every field of asdict(), then the computed attributes of
+   MessageType18 in reflection order.  The three properties of CommunicationStateMixin cannot be computed (radio
+   is None): reading them raises TypeError.  The harness re-derives this description from the implementation on
+   every run (driver command c19witness) and reports a difference. *)
+Definition filter_truncated_type18 : pymsg :=
+  let z := Ok (ANum (ratio_of_Z 0)) in
+  let n := @Ok aval ANone in
+  let x := @Raise aval (Py TypeError) in
+  mkPyMsg 18
+    [("msg_type", Ok (ANum (ratio_of_Z 18))); ("repeat", z); ("mmsi", z); ("reserved_1", z); ("speed", z);
+     ("accuracy", z); ("lon", z); ("lat", z); ("course", n); ("heading", n); ("second", n); ("reserved_2", n);
+     ("cs", n); ("display", n); ("dsc", n); ("band", n); ("msg22", n); ("assigned", n); ("raim", n); ("radio", n);
+     ("MAX_COMM_STATE_VALUE", Ok (ANum (ratio_of_Z 524287))); ("SOTDMA_ITDMA_TYPES", Ok (AOther true));
+     ("SOTDMA_TYPES", Ok (AOther true)); ("communication_state_raw", x); ("is_itdma", x); ("is_sotdma", x)]%string.
 
 (* ---- user predicates used by the correspondence check ------------------------------------------------- *)
 (* The theorems hold for every [ff : msg -> M bool].  The harness needs concrete ones on both sides; each
